@@ -64,12 +64,10 @@ Definition terms_spec_ok (f : tfilter) (size : Z) (ms : list doc) (r : facet_res
   forallb (fun e => accept f (fst e) && (snd e =? terms_count ms (fst e)) && (0 <? snd e)) es &&
   sorted_b es &&
   (Z.of_nat (length es) =? zmin_len size (length (buckets f ms))) &&
-  forallb (fun t => existsb (fun e => beqb (fst e) t) es ||
-                    forallb (fun e => e_ltb e (t, terms_count ms t)) es) (buckets f ms) &&
+  forallb (fun t => listed_b es t || forallb (fun e => e_ltb e (t, terms_count ms t)) es) (buckets f ms) &&
   (fr_total r =? total_spec ms) &&
   (fr_other r + zsum (map snd es) =? fr_total r) &&
-  (fr_other r =? rejected_spec f ms +
-     zsum (map (fun t => if existsb (fun e => beqb (fst e) t) es then 0 else terms_count ms t) (buckets f ms))) &&
+  (fr_other r =? rejected_spec f ms + unlisted_spec f ms es) &&
   (fr_missing r =? missing_spec f ms).
 
 Fixpoint names_distinct (l : list bytes) : bool :=
